@@ -65,6 +65,14 @@ func BuildData(d DataSpec) any {
 		hidden: "hidden-" + tag,
 	}
 	switch d.Shape {
+	case "hostile":
+		// wrong types in the positions the templates use as strings, lists, numbers and maps
+		hv := []any{42, "notalist-" + tag, nil, 3.5, []any{1, "x"}, map[string]any{"k": "v"}, true, pd, &pd, []string{"a"}, map[string]string{"a": "b"}, [2]int{1, 2}}
+		pick := func(i int) any { return hv[(d.Variant*7+i*5)%len(hv)] }
+		return map[string]any{
+			"title": pick(0), "name": pick(1), "n": pick(2), "flag": pick(3), "off": pick(4), "items": pick(5), "user": pick(6),
+			"html": pick(7), "cls": pick(8), "m": pick(9), "num": pick(10), "empty": pick(11), "depth": pick(12), "href": pick(13), "sty": pick(14),
+		}
 	case "nil":
 		return nil
 	case "struct":
